@@ -344,7 +344,7 @@ func runWorld(env *Env, w *World) *Outcome {
 		}
 		d.Other[pf.Path] = pf.Data
 	}
-	st := &wstate{env: env, w: w, d: d, out: out, root: root, side: side, sortedOK: map[string]bool{}, cleanRewrote: map[string]bool{}}
+	st := &wstate{env: env, w: w, d: d, out: out, root: root, side: side, sortedOK: map[string]bool{}, cleanRewrote: map[string]bool{}, corrupted: map[string]bool{}}
 	for i, l := range w.Lifetimes {
 		st.runLifetime(i, l)
 		if out.Viol != nil || out.Infra != "" {
@@ -366,6 +366,7 @@ type wstate struct {
 	// that no longer replays its value also violates C10 ("every surviving entry replays
 	// exactly the value it held before")
 	cleanRewrote map[string]bool
+	corrupted    map[string]bool // files damaged by the driver (storage fault)
 }
 
 var footerLine = regexp.MustCompile(`(?m)^at (.+):\d+$`)
@@ -387,6 +388,9 @@ func (st *wstate) runLifetime(i int, l *scen.Lifetime) {
 			os.Remove(st.root + p)
 			delete(st.d.Solo, p)
 		}
+	}
+	if l.PreCorrupt > 0 {
+		st.preCorrupt(l.PreCorrupt)
 	}
 	before, err := world.ReadDisk(st.root, skipDisk)
 	if err != nil {
@@ -747,6 +751,11 @@ func (st *wstate) runLifetime(i int, l *scen.Lifetime) {
 			}
 		}
 		plan = lf.PlanClean(st.d, rep.Ran, rep.SkipCalls)
+		for p := range st.corrupted {
+			if lf.Addressed[p] != nil {
+				plan.WildIDs = true
+			}
+		}
 		for _, prop := range plan.KeepTests {
 			out.Stats.Probes["clean_keep_entries_"+prop]++
 		}
@@ -801,6 +810,54 @@ func (st *wstate) runLifetime(i int, l *scen.Lifetime) {
 	}
 	out.Stats.StateHashes = append(out.Stats.StateHashes, after.Hash())
 	out.Stats.Trace = append(out.Stats.Trace, fmt.Sprintf("L%d disk %s", i, after.Hash()))
+}
+
+// preCorrupt damages one predicted snapshot file on the real disk (storage fault
+// between two process lifetimes) and stops predicting it.
+func (st *wstate) preCorrupt(n int) {
+	var files []string
+	for p, f := range st.d.Multi {
+		if !f.Dirty {
+			files = append(files, p)
+		}
+	}
+	for p, s := range st.d.Solo {
+		if !s.Dirty {
+			files = append(files, p)
+		}
+	}
+	sort.Strings(files)
+	if len(files) == 0 {
+		return
+	}
+	p := files[n%len(files)]
+	data, err := os.ReadFile(st.root + p)
+	if err != nil {
+		return
+	}
+	kind := []string{"torn_tail", "flipped_byte", "half_entry_appended", "last_terminator_lost", "emptied"}[(n/len(files))%5]
+	switch kind {
+	case "torn_tail":
+		data = data[:(n*7919)%(len(data)+1)]
+	case "flipped_byte":
+		if len(data) > 0 {
+			data[(n*7919)%len(data)] ^= 0x20
+		}
+	case "half_entry_appended":
+		data = append(data, []byte("\n[TestA - 1]\nhalf written")...)
+	case "last_terminator_lost":
+		data = []byte(strings.TrimSuffix(string(data), "---\n"))
+	case "emptied":
+		data = nil
+	}
+	if os.WriteFile(st.root+p, data, 0o644) != nil {
+		return
+	}
+	_, solo := st.d.Solo[p]
+	st.d.MarkDirty(p, solo)
+	st.corrupted[p] = true
+	st.out.Stats.Faults["storage:"+kind]++
+	st.out.Stats.Probes["fault_fired"]++
 }
 
 func cfgUpd(lf *model.Life, c *scen.Call) *bool {
